@@ -235,6 +235,7 @@ func runOne(t *testing.T, job *Job, seed uint64, res *Result) {
 				res.TLSStub++
 			}
 			simnet.SetWorld(r.Net)
+			simnet.SetCoarseSegmentation(r.Real)
 			simexec.SetHandler(nil)
 			sc := scenarios[job.Scen]
 			if sc == nil {
